@@ -348,6 +348,31 @@ def checkSegs (d : D) (toks : List String) : IO D := do
     | _ => d ← fail d "MODEL" "segs: malformed entry"
   pure d
 
+/-- Garbage of a segment as the model sees it: bytes / number of put records no index slot points at,
+plus the bytes of its delete records (`DeletedBytes` / `DeletedKeys` of the segment's metadata). -/
+def garbageOf (st : MState) (s : MSeg) : Nat × Nat :=
+  (MState.recsWithOffsets s.data).foldl (fun (acc : Nat × Nat) (p : Nat × Rec) =>
+    if p.2.del then (acc.1 + p.2.encode.length, acc.2)
+    else if st.idx.slots.any (fun sl => sl.seg == s.id && sl.off == p.1) then acc
+    else (acc.1 + p.2.encode.length, acc.2 + 1)) (0, 0)
+
+/-- `segmeta id:DeletedBytes:DeletedKeys …` (outside compactions): the statistics that decide which
+segments Compact picks must be the garbage actually present (C15: space is reclaimed). -/
+def checkSegMeta (d : D) (toks : List String) : IO D := do
+  let mut d := d
+  if d.comp.isSome then return d
+  for t in toks.drop 1 do
+    match (t.splitOn ":").filterMap String.toNat? with
+    | [id, db, dk] =>
+      match d.st.seg? id with
+      | none => pure ()
+      | some s =>
+        let g := garbageOf d.st s
+        if db != g.1 || dk != g.2 then
+          d ← fail d "INV" s!"segment {id}: metadata says {db} deleted bytes / {dk} deleted keys, the segment holds {g.1} bytes of garbage / {g.2} dead put records (compaction eligibility is computed from wrong statistics)"
+    | _ => d ← fail d "MODEL" "segmeta: malformed entry"
+  pure d
+
 def segName (id seq : Nat) : String :=
   let s := toString id
   String.ofList (List.replicate (5 - s.length) '0') ++ s ++ "-" ++ toString seq ++ ".psg"
@@ -738,6 +763,7 @@ def step (d : D) (line : String) : IO D := do
     let _ := n
     pure d
   | "segs" :: _ => checkSegs d toks
+  | "segmeta" :: _ => checkSegMeta d toks
   | "dir" :: _ => checkDir d toks
   | "dump" :: rest => checkDump d rest
   | "image" :: _ => checkImage d toks
